@@ -22,7 +22,9 @@ func finalizeOutput(obj any) any {
 
 func finalizeMap(obj map[string]any) map[string]any {
 	newObj := make(map[string]any, len(obj))
-	for k, v := range obj {
+	// Sorted, so that the result is deterministic even when two keys become
+	// equal after unescaping ("$A" and "$$A").
+	for k, v := range sortedMap(obj) {
 		newObj[finalizeString(k)] = finalizeOutput(v)
 	}
 
